@@ -81,7 +81,7 @@ func (f Field) StoreName() string {
 	return f.Name
 }
 
-func (k Kind) IsArray() bool  { return k == KIntArr || k == KIntArrN || k == KStrArrN }
+func (k Kind) IsArray() bool   { return k == KIntArr || k == KIntArrN || k == KStrArrN }
 func (k Kind) Orderable() bool { return !k.IsArray() && k != KJSON && k != KRel && k != KBlob }
 
 // IndexField / IndexSpec describe one secondary index.
@@ -621,11 +621,11 @@ func (q *Query) OrderClass() string {
 
 // GenOpts steer the query generator.
 type GenOpts struct {
-	Edge     bool
-	Indexed  []string // store names of fields that carry an index (bias)
-	First    []string // first fields of the indexes (strong bias for single leaves)
-	GIDs     []string // docIDs of G documents
-	GNames   []string
+	Edge      bool
+	Indexed   []string // store names of fields that carry an index (bias)
+	First     []string // first fields of the indexes (strong bias for single leaves)
+	GIDs      []string // docIDs of G documents
+	GNames    []string
 	RangeOnly bool // C17 end-to-end: range / order queries on indexed columns only
 }
 
